@@ -41,6 +41,8 @@ pub struct Sat {
     pub inconsistent: bool,
     seen: Vec<bool>,
     hints: Vec<i8>,
+    /// assignment at the time the last `solve` returned true (the model survives `reset_to_root`)
+    saved: Vec<i8>,
     pub n_conflicts: u64,
     pub n_decisions: u64,
     pub n_propagations: u64,
@@ -68,6 +70,7 @@ impl Sat {
             inconsistent: false,
             seen: vec![],
             hints: vec![],
+            saved: vec![],
             n_conflicts: 0,
             n_decisions: 0,
             n_propagations: 0,
@@ -109,9 +112,11 @@ impl Sat {
         if l > 0 { a } else { -a }
     }
 
-    /// value in the last model (only meaningful right after `solve` returned true)
+    /// value in the model of the last `solve` that returned true; variables created since then
+    /// read as false
     pub fn model_value(&self, l: Lit) -> bool {
-        self.value(l) > 0
+        let a = self.saved.get(var(l)).copied().unwrap_or(0);
+        (if l > 0 { a } else { -a }) > 0
     }
 
     fn decision_level(&self) -> u32 {
@@ -400,7 +405,11 @@ impl Sat {
                 order_pos += 1;
             }
             match pick {
-                None => return true, // all assigned: model
+                None => {
+                    // all assigned: model
+                    self.saved.clone_from(&self.assign);
+                    return true;
+                }
                 Some(v) => {
                     self.n_decisions += 1;
                     let pos = match mode {
